@@ -32,7 +32,9 @@ ASSUMED = {
             'the algebraic facts are proved in vt/lemmas/Krylov.lean; that the generator states them as in the Lean file is by reading, not machine-checked)',
             'Afunc is a function of its argument (the same vector gives the same result) and, for lanczos_iteration, Hermitian: vdot(x, A y) = vdot(A x, y) (hypothesis of the property)',
             'exact real/complex arithmetic instead of floating point'],
-    'C15': ['contracts of lanczos_iteration / arnoldi_iteration as proved in C14 (sizes only), eigh_tridiagonal and expm return arrays of the documented shapes'],
+    'C15': ['contracts of lanczos_iteration / arnoldi_iteration as proved in C14 (sizes; for lanczos_iteration also orthonormal vectors and projected map = tridiagonal matrix, used in operator form through Krylov.lean), eigh_tridiagonal and expm return arrays of the documented shapes',
+            'scipy.linalg.eigh_tridiagonal(d, e): real ascending eigenvalues, real orthogonal eigenvector matrix (orthonormal columns and rows), T U[:, a] = w[a] U[:, a]; np.exp: |exp(z)|^2 = exp(2 Re z); array * array is entrywise (conformance-tested)',
+            'the map is linear (needed for the Rayleigh-quotient clause only) and a function of its argument; exact real/complex arithmetic instead of floating point'],
     'C16': [], 'C17': [], 'C18': ['the Lean lemma is about abstract finite sets of edges; its link to the Python data structures is not machine-checked'],
     'C19': ['callable arguments (Afunc, opics(i), active(i)) do not modify their arguments (their results are treated as caller-owned memory that may alias the arguments)', 'unknown methods are pure and may return a view of their receiver',
             'which values are immutable (ints, tuples) is unknown to the analysis: must-alias of results needs native confirmation'],
@@ -55,7 +57,7 @@ BOUNDED_ONLY = {
     'C12': ['error identity ||A - u s v||^2 = sum of discarded s^2 for tol > 0', 'floating-point residuals of the isometry clauses and of the zero-tolerance product'],
     'C13': ['scale in [sqrt(1 - L tol), 1]', 'error identity for compress', 'first truncated bond keeps the prescribed Schmidt values', 'from_vector error bound'],
     'C14': ['floating-point residuals of orthonormality and of the projected-map identity (both are discharged in exact arithmetic)', 'behaviour with maps that return views of their argument, second calls (engine F obligations are discharged; the byte-level confirmation is bounded)'],
-    'C15': ['Ritz value bounds', 'norm preservation of the Hermitian exponential', 'exactness once the Krylov space is exhausted'],
+    'C15': ['Ritz value bounds', 'exactness once the Krylov space is exhausted', 'general (Arnoldi) branch of the exponential', 'floating-point residuals of the discharged clauses (norm preservation, orthonormal Ritz vectors, Rayleigh quotients)'],
     'C16': ['rewrites preserve the denoted operator', 'is_consistent after every rewrite', 'simplify never increases node/edge counts'],
     'C17': ['graph of trees denotes the padded sum', 'unrolled automaton denotes the sum over paths', 'dense meaning agrees with the symbolic meaning'],
     'C18': ['matching consists of existing edges without shared vertices', 'maximality', 'cover touches every edge and has the size of the matching', 'termination'],
